@@ -124,10 +124,15 @@ class Bits:
                     args = x['args']
                     if tgt.endswith('random_bits'):
                         v = self.const_val(args[0])
-                        res = (v, (name,)) if v is not None else None
-                        if res:
-                            self.masks = getattr(self, 'masks', {})
-                            self.masks[name] = v
+                        if v is None:
+                            # the mask length is a run-time value (e.g. derived from the size of the secret): it cannot be credited with any
+                            # fixed number of bits, and a length that follows the secret leaks its size by itself
+                            self.nonconst_masks = getattr(self, 'nonconst_masks', set())
+                            self.nonconst_masks.add(name)
+                            v = 0
+                        res = (v, (name,))
+                        self.masks = getattr(self, 'masks', {})
+                        self.masks[name] = v
                     elif tgt.endswith('rand_int'):
                         b = self.bits_op(args[1], depth + 1)
                         res = (b[0], (name,)) if b else None
@@ -241,7 +246,7 @@ def rule_response_masking(ctx, cfg='prod-all'):
             for sname in sorted(suites):
                 r = per_suite[sname][i]
                 mask_bits, chal_bits = r[1][0], 256
-                facts[sname] = {'mask_bits': mask_bits, 'mask': r[1][1][0], 'product_bits': r[2][0], 'factors': list(r[2][1])}
+                facts[sname] = {'mask_bits': mask_bits if mask_bits else 'not a constant of the suite', 'mask': r[1][1][0], 'product_bits': r[2][0], 'factors': list(r[2][1])}
                 if mask_bits < chal_bits + 65:
                     ok = False
             yield Ob('RF-H', '%s#N1:%s' % (fn, nm), ok,
